@@ -12,8 +12,9 @@
 (*   Poke (the user writes into the array returned by .points)             *)
 (*   MkDev(film, holes)  DevCopy  DevTranslate(inplace)  DevRotate DevScale*)
 (* Error semantics of the set operations: the result is a Polygon iff its  *)
-(* cell set is non-empty, edge-connected and hole-free; otherwise the      *)
-(* operation raises ValueError and nothing changes.                        *)
+(* cell set is non-empty, edge-connected and hole-free (and, for an        *)
+(* intersection, the closed operands do not also touch elsewhere);         *)
+(* otherwise the operation raises ValueError and nothing changes.          *)
 (*                                                                         *)
 (* Every object carries what the harness can observe on the real class:    *)
 (* cells (membership of the cell centres), area, bounding box, closed,     *)
@@ -51,7 +52,7 @@ VARIABLES objs,   \* heap of polygons: sequence of object records
           nb,     \* next fresh buffer id
           nops,   \* operations performed so far
           last,   \* the last operation, with the heap before it (one-step history)
-          hist    \* the whole chain with the expected heap after every step (export only)
+          hist    \* the chain of operations so far (export only)
 
 vars == <<objs, devs, nb, nops, last, hist>>
 view == <<objs, devs, nb, nops, last>>
@@ -90,6 +91,15 @@ Reach(S, seen, front) ==
 Connected(S) == S = {} \/ LET c0 == CHOOSE c \in S : TRUE IN Reach(S, {c0}, {c0}) = S
 HoleFree(S) == Connected(Pad \ S)
 IsPolygon(S) == S # {} /\ Connected(S) /\ HoleFree(S)
+
+\* The operands are closed sets: their intersection also holds every edge / corner where they merely touch.  Such
+\* a lower-dimensional leftover outside the closure of the common cells makes the result a collection, not a
+\* polygon (measured on the real class: ValueError "unexpected type").
+Around(v) == {<<v[1] - 1, v[2] - 1>>, <<v[1], v[2] - 1>>, <<v[1] - 1, v[2]>>, <<v[1], v[2]>>}
+StrayContact(A, B) ==
+  \/ \E c1 \in A \ B : \E c2 \in Nbrs(c1) : c2 \in B \ A
+  \/ \E v \in (-H .. H) \X (-H .. H) : Around(v) \cap A # {} /\ Around(v) \cap B # {} /\ Around(v) \cap A \cap B = {}
+SetOpRaises(kind, A, B, S) == ~IsPolygon(S) \/ (kind = "intersection" /\ StrayContact(A, B))
 
 BBox(S) == IF S = {} THEN <<0, 0, 0, 0>>
            ELSE <<Min({c[1] : c \in S}), Min({c[2] : c \in S}), Max({c[1] : c \in S}) + 1, Max({c[2] : c \in S}) + 1>>
@@ -138,7 +148,7 @@ Commit(o, os, ds, nbuf, isop) ==
   /\ objs' = os /\ devs' = ds2 /\ nb' = nbuf
   /\ nops' = nops + (IF isop THEN 1 ELSE 0)
   /\ last' = [o |-> o, pre |-> objs, pdevs |-> devs]
-  /\ hist' = IF Export THEN Append(hist, [o |-> o, exp |-> Snapshot(os, ds2)]) ELSE hist
+  /\ hist' = IF Export THEN Append(hist, o) ELSE hist
 
 IsObj(a) == a \in 1 .. Len(objs)
 IsDev(d) == d \in 1 .. Len(devs)
@@ -153,9 +163,9 @@ DoSetOp(kind, a, b) ==
   /\ IsObj(a) /\ IsObj(b)
   /\ LET S == SetOpMech(kind, objs[a].cells, objs[b].cells)
          o == [NoOp EXCEPT !.op = "setop", !.kind = kind, !.a = a, !.b = b] IN
-       IF IsPolygon(S)
-       THEN Commit([o EXCEPT !.res = Len(objs) + 1], Append(objs, MkObj(S, TRUE, nb)), devs, nb + 1, TRUE)
-       ELSE Commit([o EXCEPT !.out = "ValueError"], objs, devs, nb, TRUE)
+       IF SetOpRaises(kind, objs[a].cells, objs[b].cells, S)
+       THEN Commit([o EXCEPT !.out = "ValueError"], objs, devs, nb, TRUE)
+       ELSE Commit([o EXCEPT !.res = Len(objs) + 1], Append(objs, MkObj(S, TRUE, nb)), devs, nb + 1, TRUE)
 
 \* polygon = self if inplace else self.copy(); polygon.points = image   (the setter allocates)
 TransformObjs(os, a, inplace, img, reflect, nbuf) ==
@@ -266,23 +276,25 @@ New == /\ nops = 0 /\ Len(objs) < MaxBoxes /\ devs = <<>>
 Ids == 1 .. Len(objs)
 HoleSeqs == {<<>>} \cup (IF MaxHoles >= 1 THEN {<<j>> : j \in Ids} ELSE {})
                    \cup (IF MaxHoles >= 2 THEN {<<j, k>> : j, k \in Ids} ELSE {})
-Op == /\ nops < MaxOps /\ objs # <<>>
-      /\ \/ "setop" \in PolyOps /\ \E kind \in {"union", "intersection", "difference"}, a, b \in Ids : DoSetOp(kind, a, b)
-         \/ "rotate" \in PolyOps /\ \E a \in Ids, q \in Quarters, oc \in Origins, ip \in BOOLEAN : DoRotate(a, q, oc, ip)
-         \/ "translate" \in PolyOps /\ \E a \in Ids, sc \in Shifts, ip \in BOOLEAN : DoTranslate(a, sc, ip)
-         \/ "scale" \in PolyOps /\ \E a \in Ids, fc \in Factors, oc \in Origins, ip \in BOOLEAN : DoScale(a, fc, oc, ip)
-         \/ "copy" \in PolyOps /\ \E a \in Ids : DoCopy(a)
-         \/ "poke" \in PolyOps /\ \E a \in Ids, sc \in Shifts : DoPoke(a, sc)
-         \/ "mkdev" \in DevOps /\ \E f \in Ids, hs \in HoleSeqs : DoMkDev(f, hs)
-         \/ "devcopy" \in DevOps /\ \E d \in 1 .. Len(devs) : DoDevCopy(d)
-         \/ "devtranslate" \in DevOps /\ \E d \in 1 .. Len(devs), sc \in Shifts, ip \in BOOLEAN : DoDevTranslate(d, sc, ip)
-         \/ "devrotate" \in DevOps /\ \E d \in 1 .. Len(devs), q \in Quarters, oc \in Origins : DoDevRotate(d, q, oc)
-         \/ "devscale" \in DevOps /\ \E d \in 1 .. Len(devs), fc \in Factors, oc \in Origins : DoDevScale(d, fc, oc)
-Next == New \/ Op
+CanOp == nops < MaxOps /\ objs # <<>>
+ASetOp == CanOp /\ "setop" \in PolyOps /\ \E kind \in {"union", "intersection", "difference"}, a, b \in Ids : DoSetOp(kind, a, b)
+ARotate == CanOp /\ "rotate" \in PolyOps /\ \E a \in Ids, q \in Quarters, oc \in Origins, ip \in BOOLEAN : DoRotate(a, q, oc, ip)
+ATranslate == CanOp /\ "translate" \in PolyOps /\ \E a \in Ids, sc \in Shifts, ip \in BOOLEAN : DoTranslate(a, sc, ip)
+AScale == CanOp /\ "scale" \in PolyOps /\ \E a \in Ids, fc \in Factors, oc \in Origins, ip \in BOOLEAN : DoScale(a, fc, oc, ip)
+ACopy == CanOp /\ "copy" \in PolyOps /\ \E a \in Ids : DoCopy(a)
+APoke == CanOp /\ "poke" \in PolyOps /\ \E a \in Ids, sc \in Shifts : DoPoke(a, sc)
+AMkDev == CanOp /\ "mkdev" \in DevOps /\ \E f \in Ids, hs \in HoleSeqs : DoMkDev(f, hs)
+ADevCopy == CanOp /\ "devcopy" \in DevOps /\ \E d \in 1 .. Len(devs) : DoDevCopy(d)
+ADevTranslate == CanOp /\ "devtranslate" \in DevOps /\ \E d \in 1 .. Len(devs), sc \in Shifts, ip \in BOOLEAN : DoDevTranslate(d, sc, ip)
+ADevRotate == CanOp /\ "devrotate" \in DevOps /\ \E d \in 1 .. Len(devs), q \in Quarters, oc \in Origins : DoDevRotate(d, q, oc)
+ADevScale == CanOp /\ "devscale" \in DevOps /\ \E d \in 1 .. Len(devs), fc \in Factors, oc \in Origins : DoDevScale(d, fc, oc)
+Next == \/ New \/ ASetOp \/ ARotate \/ ATranslate \/ AScale \/ ACopy \/ APoke
+        \/ AMkDev \/ ADevCopy \/ ADevTranslate \/ ADevRotate \/ ADevScale
 Spec == Init /\ [][Next]_vars
 
-\* behaviour export: every complete chain with the expected abstract heap after every step
-Emit == (Export /\ nops = MaxOps) => PrintT(ToJson(hist))
+\* behaviour export: every chain (prefix-closed) with the expected abstract heap after its last step;
+\* the harness reassembles complete chains with the expected heap after every step
+Emit == (Export /\ hist # <<>>) => PrintT(ToJson([ops |-> hist, exp |-> Snapshot(objs, devs)]))
 
 ----------------------------------------------------------------------------
 \* The clauses of C18, as predicates of the last operation, the heap before it and the heap after it.
@@ -326,7 +338,7 @@ SetOpsArePointwise ==
   L.op = "setop" =>
     LET S == SetOpCells(L.kind, Pre[L.a].cells, Pre[L.b].cells) IN
       IF Ok THEN L.res = NPre + 1 /\ Len(objs) = NPre + 1 /\ objs[L.res].cells = S
-      ELSE L.out = "ValueError" /\ ~IsPolygon(S) /\ Len(objs) = NPre
+      ELSE L.out = "ValueError" /\ SetOpRaises(L.kind, Pre[L.a].cells, Pre[L.b].cells, S) /\ Len(objs) = NPre
 
 Unchanged(I) == \A i \in I : Obs(objs[i]) = Obs(Pre[i])
 DevsUnchanged == \A d \in 1 .. Len(last.pdevs) : devs[d] = last.pdevs[d]
